@@ -27,6 +27,22 @@ class Drv:
     def task(self, out, m, **kw):
         return ml.Molecule(m, name=m.name)
 
+    @Job(return_files=("res.txt",)).prep
+    def ctask(self, c, tag="t0"):
+        # one sub-job per conformer (vectorised below); the conformer number is part of the command, hence of the input hash
+        cmd = f"sh -c 'echo run >> {COUNT}/{c.name}_{c._conf_id}; echo {tag} > res.txt; exit 0'"
+        return JobInput(f"{c.name}_{c._conf_id}", commands=[(cmd, "c")], return_files=self.return_files)
+
+    @ctask.post
+    def ctask(self, out, c, **kw):
+        return out.files["res.txt"].decode().strip() if isinstance(out.files["res.txt"], bytes) else str(out.files["res.txt"]).strip()
+
+    vtask = Job.vectorize(ctask)
+
+    @vtask.reduce
+    def vtask(self, results, ens, **kw):
+        return list(results)
+
 
 def lib(path, names):
     L = ml.MoleculeLibrary(path, readonly=False, overwrite=True)
@@ -71,6 +87,81 @@ try:
         bad.append("an item already in the destination was executed again")
 except BaseException as e:
     bad.append(f"jobmap raised {type(e).__name__}: {e}")
+# cached outputs: reused only when produced from the same input with exit code 0
+try:
+    src3 = lib(os.path.join(d, "src3.mlib"), ["y"])
+    dstA = lib(os.path.join(d, "dstA.mlib"), [])
+    cache3 = os.path.join(d, "cache3")
+    jobmap(drv.task, src3, dstA, cache_dir=cache3, scratch_dir=os.path.join(d, "scr"), kwargs={"fail": False})
+    n0 = runs("y")
+    if n0 != 1:
+        bad.append(f"first run executed the job {n0} times")
+    dstB = lib(os.path.join(d, "dstB.mlib"), [])
+    jobmap(drv.task, src3, dstB, cache_dir=cache3, scratch_dir=os.path.join(d, "scr"), kwargs={"fail": False})
+    if runs("y") != n0:
+        bad.append("a valid cached output (same input, exit 0) was not reused: the job ran again")
+    with dstB.reading():
+        if "y" not in dstB.keys():
+            bad.append("a valid cached output was not turned into a destination entry")
+    # same key, different input (the source object changed): the cached output is foreign and must not be used
+    src3b = ml.MoleculeLibrary(os.path.join(d, "src3b.mlib"), readonly=False, overwrite=True)
+    with src3b.writing():
+        m = ml.Molecule(ml.Molecule.load_mol2(ml.files.benzene_mol2), name="y")
+        src3b["y"] = m
+
+    class Drv2(Drv):
+        @Job(return_files=("res.txt",)).prep
+        def task(self, m, fail=False):
+            cmd = f"sh -c 'echo run >> {COUNT}/{m.name}; echo other-input > res.txt; exit 0'"
+            return JobInput(m.name, commands=[(cmd, "c")], return_files=self.return_files)
+
+        @task.post
+        def task(self, out, m, **kw):
+            return ml.Molecule(m, name=m.name)
+    dstC = lib(os.path.join(d, "dstC.mlib"), [])
+    jobmap(Drv2().task, src3b, dstC, cache_dir=cache3, scratch_dir=os.path.join(d, "scr"))
+    if runs("y") != n0 + 1:
+        bad.append(f"a cached output produced from a DIFFERENT input (hash mismatch) was reused instead of recomputed (runs: {runs('y')}, expected {n0 + 1})")
+except BaseException as e:
+    bad.append(f"cache scenario raised {type(e).__name__}: {e}")
+# vectorised job with a partly warm cache
+try:
+    ens = ml.ConformerEnsemble.load_mol2(ml.files.pentane_confs_mol2)
+    ens = ml.ConformerEnsemble(ens, name="pent")
+    csrc = ml.ConformerLibrary(os.path.join(d, "csrc.clib"), readonly=False, overwrite=True)
+    with csrc.writing():
+        csrc["pent"] = ens
+    nconf = ens.n_conformers
+
+    class Store(dict):
+        """a destination collection for the plain results of the vectorised job"""
+    cdst1 = ml.storage.Collection(os.path.join(d, "cdst1.ukv"), ml.storage.UkvCollectionBackend, value_encoder=lambda v: repr(v).encode(),
+                                  value_decoder=lambda b: eval(b.decode()), readonly=False, overwrite=True)
+    ccache = os.path.join(d, "ccache")
+    jobmap(drv.vtask, csrc, cdst1, cache_dir=ccache, scratch_dir=os.path.join(d, "scr"))
+    tot1 = sum(runs(f"pent_{i}") for i in range(nconf))
+    with cdst1.reading():
+        if "pent" not in cdst1.keys():
+            bad.append("vectorised job: first run did not store the item")
+        elif list(cdst1["pent"]) != ["t0"] * nconf:
+            bad.append(f"vectorised job: stored {cdst1['pent']!r} for {nconf} conformers")
+    if tot1 != nconf:
+        bad.append(f"vectorised job: {tot1} executions for {nconf} conformers")
+    # drop one cached sub-job output, use a fresh destination: exactly that sub-job is executed again, the item is stored
+    os.remove(os.path.join(ccache, "output", "pent.1.out"))
+    cdst2 = ml.storage.Collection(os.path.join(d, "cdst2.ukv"), ml.storage.UkvCollectionBackend, value_encoder=lambda v: repr(v).encode(),
+                                  value_decoder=lambda b: eval(b.decode()), readonly=False, overwrite=True)
+    jobmap(drv.vtask, csrc, cdst2, cache_dir=ccache, scratch_dir=os.path.join(d, "scr"))
+    tot2 = sum(runs(f"pent_{i}") for i in range(nconf))
+    if tot2 != nconf + 1 or runs("pent_1") != 2:
+        bad.append(f"vectorised job with a partly warm cache: {tot2 - tot1} executions, expected exactly the 1 missing sub-job")
+    with cdst2.reading():
+        if "pent" not in cdst2.keys():
+            bad.append("vectorised job with a partly warm cache: every sub-job output is valid but the item was not stored")
+        elif list(cdst2["pent"]) != ["t0"] * nconf:
+            bad.append(f"vectorised job with a partly warm cache: stored {cdst2['pent']!r}")
+except BaseException as e:
+    bad.append(f"vectorised scenario raised {type(e).__name__}: {e}")
 if bad:
     print("REPRODUCED:", "; ".join(bad[:3]))
     sys.exit(0)
